@@ -493,7 +493,59 @@ func globalOrigin(v ssa.Value) *ssa.Global {
 	return nil
 }
 
+var c17cPurePkgs = map[string]bool{"strings": true, "strconv": true, "fmt": true, "unicode": true, "unicode/utf8": true, "sort": true, "regexp": true, "errors": true, "bytes": true, "math": true, "encoding/json": true, "log": true, "slices": true, "maps": true, "unicode/utf16": true, "text/tabwriter": false}
+var c17cPkgSeen = map[string]int{}
+var nFmtOps = 0
+
+// printsStably: fmt's default formatting of a value of this type contains no address.
+func printsStably(t types.Type, depth int) bool {
+	if depth > 6 {
+		return false
+	}
+	if types.Implements(t, errorIface()) || types.Implements(types.NewPointer(t), errorIface()) {
+		return true // printed through Error()
+	}
+	switch u := t.Underlying().(type) {
+	case *types.Basic:
+		return u.Kind() != types.UnsafePointer && u.Kind() != types.Uintptr
+	case *types.Slice:
+		return printsStably(u.Elem(), depth+1)
+	case *types.Array:
+		return printsStably(u.Elem(), depth+1)
+	case *types.Map:
+		return printsStably(u.Key(), depth+1) && printsStably(u.Elem(), depth+1)
+	case *types.Struct:
+		for i := 0; i < u.NumFields(); i++ {
+			if !printsStably(u.Field(i).Type(), depth+1) {
+				return false
+			}
+		}
+		return true
+	case *types.Pointer:
+		// a pointer at the top is printed as &{…}; what it points to must be address-free, and
+		// one level is all fmt follows
+		if depth == 0 {
+			if st, ok := u.Elem().Underlying().(*types.Struct); ok {
+				for i := 0; i < st.NumFields(); i++ {
+					if !printsStably(st.Field(i).Type(), depth+2) {
+						return false
+					}
+				}
+				return true
+			}
+		}
+		return false
+	}
+	return false
+}
+
+func errorIface() *types.Interface {
+	return types.Universe.Lookup("error").Type().Underlying().(*types.Interface)
+}
+
 func c17c(c *Ctx) {
+	nFmtOps = 0
+	c17cPkgSeen = map[string]int{}
 	bannedPkg := []string{"time.", "math/rand.", "math/rand/v2.", "crypto/rand.", "(*math/rand.", "(*time."}
 	bannedFn := map[string]bool{"os.Getenv": true, "os.Environ": true, "os.LookupEnv": true, "os.Getpid": true, "os.Hostname": true, "os.Getwd": true}
 	fileFns := map[string]bool{"io/ioutil.ReadFile": true, "os.ReadFile": true, "os.Open": true, "io/ioutil.ReadAll": true, "os.Create": true, "os.OpenFile": true}
@@ -528,12 +580,56 @@ func c17c(c *Ctx) {
 				if bannedFn[n] {
 					c.Bad(fk+"/environment["+n+"]", c.W.Pos(x.Pos()), "library code reads the process environment through "+n)
 				}
+				// closed world: besides the above, library code only calls into the packages it
+				// calls today — text, numbers, sorting, JSON decoding, logging. Anything else of
+				// the standard library (os, path/filepath, runtime, net, reflect, unsafe, sync,
+				// plugin ...) can make the output depend on where and when the compiler runs.
+				if g := callee(x); g != nil && g.Pkg != nil && !c.W.InRepo(g) && !(g.Name() == "init" && fn.Name() == "init") {
+					pp := g.Pkg.Pkg.Path()
+					okPkg := c17cPurePkgs[pp]
+					if pp == "os" || pp == "io/ioutil" {
+						okPkg = fileFns[n] // judged below
+					}
+					if pp == "fmt" && (strings.HasPrefix(n, "fmt.Scan") || strings.HasPrefix(n, "fmt.Fscan") || strings.HasPrefix(n, "fmt.Print")) {
+						okPkg = false
+					}
+					c17cPkgSeen[pp]++
+					if !okPkg {
+						c.Bad(fk+"/outside-world["+n+"]", c.W.Pos(x.Pos()), "library code calls "+n+": package "+pp+" is none of the text / number / sorting / decoding packages the compiler is built from, so the output may depend on the environment the compiler runs in")
+					}
+				}
+				// what is formatted prints the same on every run: plain values, errors, and
+				// lists / tables / records of those — nothing that contains a pointer, an interface
+				// or a function, which fmt prints as an address
+				if strings.HasPrefix(n, "fmt.") || strings.HasPrefix(n, "log.") {
+					for _, a := range x.Common().Args {
+						for _, e := range varargElems(a) {
+							v := e
+							if mi, ok := v.(*ssa.MakeInterface); ok {
+								v = mi.X
+							}
+							nFmtOps++
+							if !printsStably(v.Type(), 0) {
+								c.Bad(fmt.Sprintf("%s/formatted-operand[%s]@%d", fk, n, c.T(fn).callOrd[x]), c.W.Pos(x.Pos()), n+" is given "+pretty(c.term(fn, v))+" of type "+types.TypeString(v.Type(), nil)+", which contains a pointer, an interface or a function: fmt prints those as addresses, so the text differs from run to run")
+							}
+						}
+					}
+				}
 				if fileFns[n] && fn.Name() != "LoadFontConfig" {
 					c.Bad(fk+"/file-access["+n+"]", c.W.Pos(x.Pos()), "library code touches the file system in "+fk+" (only LoadFontConfig may read its config file)")
 				}
 			}
 		})
 	}
+	{
+		var ps []string
+		for k, v := range c17cPkgSeen {
+			ps = append(ps, fmt.Sprintf("%s:%d", k, v))
+		}
+		sortStrings(ps)
+		c.OK("library-packages", "-", "standard packages library code calls into: "+strings.Join(ps, " "))
+	}
+	c.Check(nFmtOps >= 40, "formatted-operands", "-", fmt.Sprintf("%d operands of fmt / log calls in library code print without addresses", nFmtOps), fmt.Sprintf("only %d operands of fmt / log calls found", nFmtOps))
 	c.OK("scanned", "-", fmt.Sprintf("%d call sites in %d functions scanned for goroutines, channels, clocks, randomness, environment and file access", nCalls, len(c.W.Funcs)))
 	if lf := c.Fn("parser.LoadFontConfig"); lf != nil {
 		c.Check(len(callsNamed(lf, "io/ioutil.ReadFile"))+len(callsNamed(lf, "os.ReadFile")) == 1, "LoadFontConfig/reads-config", c.W.FuncPos(lf), "the font config is the one file the library reads", "LoadFontConfig no longer reads exactly one file")
